@@ -23,3 +23,28 @@ Proof.
   rewrite Hexp in X. destruct X as (rest & st'' & Hd & Hf).
   rewrite (Hf Hfr) in Hd. exists st''. exact Hd.
 Qed.
+
+(* C08 across versions: every strict prefix of version-kw data is rejected by the reader of version
+   kr, whenever the pair is framed and the whole record denotes a value for that reader - at the
+   real codecs (enc / dec on a TNamed type), for histories whose field types leave the string
+   table alone (EvolutionTop) *)
+From Desert Require Import EvolutionTop TruncProofs.
+
+Lemma c08_cross_version : forall f H kw kr nm vw st b st' k f' vs,
+  legal H = true -> history_neutral H = true ->
+  (kw <= length (h_steps H))%nat -> (kr <= length (h_steps H))%nat ->
+  let Ew := [mkD nm (DRecord (decl_at H kw))] in
+  let Er := [mkD nm (DRecord (decl_at H kr))] in
+  wf_val (S f) Ew (TNamed 0) (VNode 0 vw) = true ->
+  enc (S f) Ew (TNamed 0) (VNode 0 vw) st = Ok (b, st') ->
+  (S f + opt_depth (decl_at H kr) <= f')%nat ->
+  framed H kw kr = true -> expected H kw kr vw = Ok vs ->
+  forall j, j < nlen b ->
+    is_err (dec a_ops f' Er (TNamed 0) (mkA (ntake j b) k st)) = true.
+Proof.
+  intros f H kw kr nm vw st b st' k f' vs Hl Hn Hkw Hkr Ew Er Hv He Hf' Hfr Hex j Hj.
+  pose proof (c03_top_fuel f H kw kr nm vw st b st' [] k f' Hl Hn Hkw Hkr Hv He Hf') as X.
+  cbv zeta in X. rewrite Hex in X. destruct X as (rest & st'' & Hd & Hrest).
+  rewrite (Hrest Hfr) in Hd.
+  exact (proj2 (decA_consumed _ _ _ _ _ _ _ _ _ Hd) j k Hj).
+Qed.
